@@ -141,6 +141,13 @@ class C12(Prop):
         else:
             mine = list(objs)
             ia = IndexedAssembly("asm", scaffolds=[Scaffold("scf", mine)])
+            if (len(objs) + len(case["queries"])) % 2:
+                # a second, different scaffold of the same name is offered and refused (ValueError): the refusal
+                # must leave the first one and its index as they were
+                try:
+                    ia.add_scaffold(Scaffold("scf", [Fragment("other", 1, 37, 1), Fragment("other2", 1, 3, 1)]))
+                except ValueError:
+                    pass
             if case.get("reuse_list"):
                 mine.clear()            # the caller re-uses its own list
             if case.get("pre_mutate"):
